@@ -29,6 +29,18 @@ Theorem C18_input_requests : forall specs specl typed quit run_empty fuel acts,
   sok chk_C18 typed (rev (trace (snd (app_run_all specs specl typed quit run_empty fuel acts)))) = true.
 Proof. exact input_requests. Qed.
 
+(* "told exactly once": no input handler ever gets a second ready signal - the additional acceptor [chk_once]
+   (proofs/InputLink.v: T_READY [n; _] only for a handler n that has not received one) accepts every session ... *)
+Theorem C18_answered_at_most_once : forall specs specl typed quit run_empty fuel acts,
+  (forall n, specs n = nth n specl default_spec) -> wf_session specl quit acts = true ->
+  sok chk_once typed (rev (trace (snd (app_run_all specs specl typed quit run_empty fuel acts)))) = true.
+Proof. exact answered_once. Qed.
+
+(* ... and a trace it accepts contains no two ready signals for the same handler *)
+Theorem C18_no_second_ready : forall typed t1 n a1 x1 t2 a2 x2 t3,
+  sok chk_once typed (t1 ++ EUser T_READY (n :: a1) x1 :: t2 ++ EUser T_READY (n :: a2) x2 :: t3) = true -> False.
+Proof. exact no_second_ready. Qed.
+
 (* what the acceptor says, clause by clause *)
 Theorem C18_refused_names_everyone : forall w ids t, chk_C18 w (EUser T_REFUSED ids t) = true ->
   sw_istack w <> [] /\ exists n, ids = rev (sw_istack w) ++ [n].
@@ -61,7 +73,7 @@ Proof. intros w sid d top rest E. cbn. rewrite E. repeat split. Qed.
    error names [0; 1], the application is killed.  And the monitor is not vacuous. *)
 Example C18_example :
   fst (ex18_run true) = [ONormal; OBlocked] /\
-  sok chk_C18 ex18_typed (ex18_trace true) = true /\
+  sok chk_C18 ex18_typed (ex18_trace true) = true /\ sok chk_once ex18_typed (ex18_trace true) = true /\
   user_events T_PROMPT (ex18_trace true) = [([0; 0], []); ([1; 1], []); ([2; 1], []); ([3; 0], []); ([4; 0], []); ([5; 0], [])] /\
   user_events T_READY (ex18_trace true) = [([2; 1], [49%N]); ([0; 0], []); ([1; 0], []); ([3; 1], [50%N]); ([4; 1], [])] /\
   fst (ex18_run false) = [ONormal; OThrow XSysExit] /\
@@ -82,6 +94,8 @@ Example C18_example :
 Proof. vm_compute. repeat split. Qed.
 
 Print Assumptions C18_input_requests.
+Print Assumptions C18_answered_at_most_once.
+Print Assumptions C18_no_second_ready.
 Print Assumptions C18_refused_names_everyone.
 Print Assumptions C18_reader_started_iff_idle.
 Print Assumptions C18_ready_was_announced.
